@@ -15,6 +15,7 @@ def lines_of(evs, grace):
         k = e.get("e")
         if k == "SinkCreated":
             if e.get("same", True) is False:
+                out.append({"k": "sinkget", "s": e["s"], "found": True, "same": False})
                 continue
             out.append({"k": "sink", "s": e["s"], "lvl": e.get("lvl", 0), "tw": _ints(e.get("tw", "")), "tf": _ints(e.get("tf", ""))})
         elif k == "LoggerCreated":
@@ -72,6 +73,8 @@ def lines_of(evs, grace):
             out.append({"k": "remove", "lg": e["lg"]})
         elif k == "RemoveBlockingRet":
             out.append({"k": "removebret", "lg": e["lg"], "n": e["nloggers"]})
+        elif k == "SinkGet":
+            out.append({"k": "sinkget", "s": e["s"], "found": bool(e["found"]), "same": bool(e["same"])})
         elif k == "SinkRefDropped":
             out.append({"k": "dropsink", "s": e["s"]})
         elif k == "SinkDestroyed":
